@@ -791,7 +791,7 @@ func danglingIndex(t *rapid.T, c *wasmenc.Module) ([]byte, string) {
 		return uint32(v)
 	}
 	b := wasmenc.NewB()
-	kind := rapid.SampledFrom([]string{"ref.func+declare", "ref.func+declare", "ref.func+declare", "ref.func", "call", "global.get", "local.get", "br", "call_indirect-type", "call_indirect-table", "table.get", "elem.drop", "data.drop", "export", "start", "elem-item", "callee-type", "callee-type"}).Draw(t, "dangling")
+	kind := rapid.SampledFrom([]string{"ref.func+declare", "ref.func+declare", "ref.func+declare", "ref.func", "call", "global.get", "local.get", "br", "call_indirect-type", "call_indirect-table", "table.get", "elem.drop", "data.drop", "export", "start", "elem-item", "callee-type", "callee-type", "block-type", "block-type", "memop-no-memory", "memop-no-memory", "memop-no-memory", "padded-immediate", "padded-immediate"}).Draw(t, "dangling")
 	switch kind {
 	case "ref.func+declare", "ref.func":
 		f := at(nfuncs)
@@ -810,6 +810,67 @@ func danglingIndex(t *rapid.T, c *wasmenc.Module) ([]byte, string) {
 		}
 	case "call":
 		b.Call(at(nfuncs))
+	case "block-type":
+		// block / loop / if whose block type is a type index at or beyond the end of the type section
+		op := rapid.SampledFrom([]byte{0x02, 0x03, 0x04}).Draw(t, "blockop")
+		if op == 0x04 {
+			b.I32Const(0)
+		}
+		b.Raw(op).Append(wasmenc.S64(int64(at(uint32(len(c.Types)) + 1)))).End()
+	case "memop-no-memory":
+		// a module without any memory whose added function executes one memory instruction
+		// (any load/store/SIMD lane/atomic/bulk form): each form has its own validation guard
+		c.Mems, c.Datas, c.DataCnt = nil, nil, false
+		var e []wasmenc.Export
+		for _, x := range c.Exports {
+			if x.Kind != wasmenc.KMem {
+				e = append(e, x)
+			}
+		}
+		c.Exports = e
+		var imps []wasmenc.Import
+		for _, im := range c.Imports {
+			if im.Kind != wasmenc.KMem {
+				imps = append(imps, im)
+			}
+		}
+		c.Imports = imps
+		// the other functions must not decide the verdict: their bodies become `unreachable`
+		for i := range c.Funcs {
+			c.Funcs[i].Body, c.Funcs[i].Locals = []byte{0x00}, nil
+		}
+		memInstr(t, b)
+	case "padded-immediate":
+		// a reserved / index immediate spelled as a non-minimal LEB128 zero (80 00, 80 80 00, ...):
+		// wherever the validator accepts it, the engines must skip the same number of bytes
+		pad := func() []byte {
+			n := rapid.IntRange(1, 4).Draw(t, "padding")
+			out := make([]byte, 0, n+1)
+			for i := 0; i < n; i++ {
+				out = append(out, 0x80)
+			}
+			return append(out, 0)
+		}
+		switch rapid.IntRange(0, 6).Draw(t, "padded") {
+		case 0:
+			b.Raw(0x3f).Append(pad()).Drop() // memory.size
+		case 1:
+			b.I32Const(0).Raw(0x40).Append(pad()).Drop() // memory.grow
+		case 2:
+			b.I32Const(0).I32Const(0).I32Const(0).Raw(0xfc, 11).Append(pad()) // memory.fill
+		case 3:
+			b.I32Const(0).I32Const(0).I32Const(0).Raw(0xfc, 10).Append(pad()).Append(pad()) // memory.copy
+		case 4:
+			b.I32Const(0).I32Const(0).I32Const(0).Raw(0xfc, 8, 0).Append(pad()) // memory.init seg 0
+			if len(c.Datas) == 0 {
+				c.Datas = [][]byte{wasmenc.PassiveData([]byte{1, 2, 3})}
+				c.DataCnt = true
+			}
+		case 5:
+			b.I32Const(0).Raw(0x11).Append(wasmenc.U32(uint32(len(c.Types)))).Append(pad()) // call_indirect type, table(padded 0)
+		default:
+			b.I32Const(0).Raw(0x28).Append(pad()).Append(pad()).Drop() // i32.load align=0 offset=0, both padded
+		}
 	case "callee-type":
 		// an earlier function calls a later function whose type index dangles
 		if len(c.Funcs) >= 2 {
@@ -847,6 +908,68 @@ func danglingIndex(t *rapid.T, c *wasmenc.Module) ([]byte, string) {
 	c.Exports = append([]wasmenc.Export{{Name: "dangle", Kind: wasmenc.KFunc, Idx: nfuncs - 1}}, c.Exports...)
 	evid.Label("dangling:"+kind, 1)
 	return c.Encode(), fmt.Sprintf("sem-dangling-%s%+d", kind, k)
+}
+
+// memInstr appends one randomly chosen memory-touching instruction with constant operands
+// (results dropped) from the generator's instruction table, or a bulk-memory instruction.
+func memInstr(t *rapid.T, b *wasmenc.B) {
+	var ops []*wasmgen.Op
+	for i := range wasmgen.OpTable {
+		if op := &wasmgen.OpTable[i]; op.Imm == wasmgen.ImmMem || op.Imm == wasmgen.ImmMemLane || op.Imm == wasmgen.ImmAtomic {
+			ops = append(ops, op)
+		}
+	}
+	k := rapid.IntRange(0, len(ops)+5).Draw(t, "memop")
+	if k >= len(ops) {
+		switch k - len(ops) {
+		case 0:
+			b.MemorySize().Drop()
+		case 1:
+			b.I32Const(0).MemoryGrow().Drop()
+		case 2:
+			b.I32Const(0).I32Const(0).I32Const(0).MemoryFill()
+		case 3:
+			b.I32Const(0).I32Const(0).I32Const(0).MemoryCopy()
+		case 4:
+			b.I32Const(0).I32Const(0).I32Const(0).MemoryInit(0)
+		default:
+			b.DataDrop(0)
+		}
+		return
+	}
+	op := ops[k]
+	for _, p := range op.Params {
+		switch p {
+		case wasmenc.I32:
+			b.I32Const(0)
+		case wasmenc.I64:
+			b.I64Const(0)
+		case wasmenc.F32:
+			b.F32(0)
+		case wasmenc.F64:
+			b.F64(0)
+		case wasmenc.V128:
+			b.V128Const(0, 0)
+		}
+	}
+	if op.Prefix == 0 {
+		b.Raw(byte(op.Sub))
+	} else {
+		b.Raw(op.Prefix).Append(wasmenc.U32(op.Sub))
+	}
+	al := uint32(0)
+	if op.Imm == wasmgen.ImmAtomic {
+		for 1<<al < op.Width {
+			al++
+		}
+	}
+	b.Append(wasmenc.U32(al)).Append(wasmenc.U32(0))
+	if op.Imm == wasmgen.ImmMemLane {
+		b.Raw(0)
+	}
+	for range op.Results {
+		b.Drop()
+	}
 }
 
 func propSemantic(t *rapid.T) {
